@@ -528,10 +528,10 @@ func c11SelfTest(t *testing.T, full []c11Atom) {
 		t.Fatalf("self-test: oracle rejects a faithful read-back: %s", what)
 	}
 	for name, g := range map[string][]c11Got{
-		"lost-bucket":   {{1000, histmodel.FromInt(bad)}, ok[1]},
-		"lost-stale":    {ok[0], {1015, histmodel.FromInt(&histogram.Histogram{Sum: math.NaN()})}},
-		"lost-sample":   {ok[0]},
-		"shifted-time":  {ok[0], {1016, ok[1].M}},
+		"lost-bucket":    {{1000, histmodel.FromInt(bad)}, ok[1]},
+		"lost-stale":     {ok[0], {1015, histmodel.FromInt(&histogram.Histogram{Sum: math.NaN()})}},
+		"lost-sample":    {ok[0]},
+		"shifted-time":   {ok[0], {1016, ok[1].M}},
 		"spurious-stale": {{1000, ok[1].M}, ok[1]},
 	} {
 		if what, _ := c11Compare(exp, g); what == "" {
@@ -689,7 +689,7 @@ func TestVerifC11a(t *testing.T) {
 	r.Count("sequences_chunkenc", int(seqs.Load()))
 	r.Set("depth_completed_chunkenc", depthDone)
 	r.Set("phases_chunkenc", phaseDesc)
-	r.Set("rule", "part (a): every sequence of atoms (histmodel shape x int|float; full = core shapes + 9 derived gauge, padded, grown and shifted variants, one = the same shapes with one representation each, small = 14 colliding shapes) up to the stated length, each run under every listed configuration (plain or start-timestamp chunk encoding with 3 ST patterns, forced chunk cut before any subset of samples, appender re-opened before every append, repeated atoms re-appending the same object) through AppendHistogram/AppendFloatHistogram with the head's new-chunk/recode/prevApp protocol, read back in 5 passes (fresh iterators and objects kept until the end; one recycled iterator and recycled objects with integer samples read both as int and as float; chunks rebuilt from a copy of their bytes and read as float; Seek to every timestamp; append-only re-encoding of every chunk) and compared with histmodel at every timestamp; the caller's objects are re-decoded after the last append (every prefix is a case of its own). distinct_nontrivial counts the enumerated sequences (distinct by construction: no sequence is enumerated twice) in which an appender recoded the chunk, cut a chunk itself, or inserted empty buckets into the caller's histogram. Parts (b)-(d): see rule_head.")
+	r.Set("rule", "part (a): every sequence of atoms (histmodel shape x int|float; full = core shapes + 9 derived gauge, padded, grown and shifted variants + the gauge-hinted staleness marker, one = the same shapes with one representation each, small = 14 colliding shapes, stale = the staleness-interplay alphabet: two chunk-sharing shapes for each of a counter and a gauge series, a custom-bucket gauge, and 6 kinds of staleness marker - bare with unknown / gauge / reset / no-reset hint, with buckets left in place with unknown / gauge hint) up to the stated length, each run under every listed configuration (plain or start-timestamp chunk encoding with 3 ST patterns, forced chunk cut before any subset of samples, appender re-opened before every append, repeated atoms re-appending the same object) through AppendHistogram/AppendFloatHistogram with the head's new-chunk/recode/prevApp protocol, read back in 5 passes (fresh iterators and objects kept until the end; one recycled iterator and recycled objects with integer samples read both as int and as float; chunks rebuilt from a copy of their bytes and read as float; Seek to every timestamp; append-only re-encoding of every chunk) and compared with histmodel at every timestamp; the caller's objects are re-decoded after the last append (every prefix is a case of its own). distinct_nontrivial counts the enumerated sequences (distinct by construction: no sequence is enumerated twice) in which an appender recoded the chunk, cut a chunk itself, or inserted empty buckets into the caller's histogram; cases in which a staleness marker (a gauge-hinted one) joined a non-empty chunk are counted separately and must occur. Parts (b)-(d): see rule_head.")
 	r.Assume("histmodel (decode + semantic equality) is the trusted reference; shapes are valid histograms by construction (Validate() checked in the self-test)")
 	if !r.TooManyViolations() && (nMarker.Load() == 0 || nGaugeMarker.Load() == 0) {
 		// the full alphabet at length 2 (always completed) already contains these cases
